@@ -234,9 +234,14 @@ func FuncBuilder(env *Zlisp, name string,
 	invok, err := env.datastack.PopExpr()
 	panicOn(err) // we just pushed in the clos.Execute(), so this should always be err == nil
 	env.pc = notePc
-	err = env.LexicalBindSymbol(symN, invok)
-	if err != nil {
-		return SexpNull, fmt.Errorf("internal error: could not bind symN:'%s' into env: %v", symN.name, err)
+	if !isAnon {
+		// (an anonymous function is its value only: a binding under
+		// its generated name could not be referred to, and would stay
+		// in the scope for ever, one more for every evaluation.)
+		err = env.LexicalBindSymbol(symN, invok)
+		if err != nil {
+			return SexpNull, fmt.Errorf("internal error: could not bind symN:'%s' into env: %v", symN.name, err)
+		}
 	}
 
 	if len(body) > 0 {
